@@ -422,7 +422,7 @@ def _cls(e: BaseException) -> str:
 NAMES = ["f", "main", "idé", "λ-calc", "函数", 'f"q\\', "emoji😀", "a b", "ñ", ""]
 STRS = ["", "plain", "üñï", "日本語", 'quote"back\\slash', "line\nbreak", "😀", "\u0000nul", "tab\t", "é" * 40]
 STD_EXTS = [
-    "logic", "prelude", "ptr", "arithmetic.int.types", "arithmetic.float.types", "arithmetic.float",
+    "logic", "prelude", "ptr", "arithmetic.int", "arithmetic.int.types", "arithmetic.float.types", "arithmetic.float",
     "arithmetic.conversions", "collections.list", "collections.static_array",
 ]
 
@@ -620,7 +620,10 @@ def build_ext(desc):
         pool = [tys.Bool, tys.Qubit, int_t(4), tys.Unit, *tyvars, *[td.instantiate([]) for td in tds if not td.params]]
         ft = tys.FunctionType(
             [rng.choice(pool) for _ in range(rng.randint(0, 3))], [rng.choice(pool) for _ in range(rng.randint(0, 2))])
-        sig = ext.OpDefSig(tys.PolyFuncType(ps, ft)) if rng.random() < 0.85 else ext.OpDefSig(None, binary=True)
+        r = rng.random()
+        # static signature (binary flag set or not — both occur in the bundled extensions, e.g. inarrow_s), or
+        # a binary-computed signature only
+        sig = (ext.OpDefSig(tys.PolyFuncType(ps, ft), binary=r < 0.25) if r < 0.85 else ext.OpDefSig(None, binary=True))
         misc = {rng.choice(STRS): rng.choice([*STRS, 1, None, [1, "ü"], {"k": "日"}])} if rng.random() < 0.5 else {}
         e.add_op_def(ext.OpDef(
             name=rng.choice(["Op", "Ωp", "op.x"]) + str(i), signature=sig, description=rng.choice(STRS), misc=misc))
